@@ -50,6 +50,8 @@ def make_doc(c):
             q._name = "sp"
     if c["fault"] == "text-xml-cannot-hold":
         p1.definition = "control \x00 character"
+    elif c["fault"] == "text-file-cannot-encode":
+        p1.definition = "lone surrogate \udce9 from a file name"
     elif c["fault"] == "attribute-json-cannot-encode":
         p1._unit = Unencodable()
     return doc
